@@ -25,6 +25,7 @@ import (
 
 	"github.com/codenotary/immudb/embedded/multierr"
 	"github.com/codenotary/immudb/embedded/store"
+	"github.com/codenotary/immudb/embedded/verifhook"
 )
 
 // savepointState captures SQLTx state at a SAVEPOINT for later rollback.
@@ -215,6 +216,8 @@ func (sqlTx *SQLTx) Commit(ctx context.Context) error {
 	if err != nil && !errors.Is(err, store.ErrNoEntriesProvided) {
 		return err
 	}
+
+	verifhook.Point("sql.commit.afterStoreCommit")
 
 	// DDL committed: the cached catalog is now stale; clear it so the next
 	// read-only transaction reloads the schema from the store.
